@@ -147,31 +147,7 @@ def run(prog, rep):
                      any(call_name(c) == "%s._load" % me for r in n.expr_roots() for c in calls_in(r))]
             rep.check(not later, "ORDER-4", "%s.load: the retry ends the call" % cname, "ok",
                       "after the retry %s.load falls through to a second synchronous _load" % cname, f.where)
-        # ------------------------------------------------------------- ORDER-5
-        rep.rule("ORDER-5", "_load: the store self[url] = <doc> is dominated by the call of XMLReader(...).from_file(...) and by "
-                            "<doc>.finalize(); the stored value is that document (or None after a parser error); no other method "
-                            "stores into the table; refresh may clear it")
-        f = cls.lookup_method("_load")
-        rep.saw_function(f)
-        g = build_cfg(f)
-        pub = _node_with(g, lambda n: n.kind == "stmt" and isinstance(n.ast, ast.Assign) and unparse(n.ast.targets[0]) == "%s[%s]" % (f.params[0], f.params[1]))
-        parse = _node_with(g, lambda n: n.kind == "stmt" and ".from_file(" in unparse(n.ast))
-        fin = _node_with(g, lambda n: n.kind == "stmt" and unparse(n.ast).endswith(".finalize()"))
-        rep.check(len(pub) == 1 and len(parse) == 1 and len(fin) == 1, "ORDER-5", "%s._load: parse, finalize, publish" % cname, "ok",
-                  "%s._load no longer has exactly one parse, one finalize and one publishing store" % cname, f.where)
-        if len(pub) == 1 and len(parse) == 1 and len(fin) == 1:
-            docvar = unparse(parse[0].ast.targets[0]) if isinstance(parse[0].ast, ast.Assign) else "?"
-            ok_var = unparse(fin[0].ast) == "%s.finalize()" % docvar and unparse(pub[0].ast.value) == docvar
-            # publish happens after finalize on every path where finalize ran: finalize is not reachable from the publish,
-            # and every path to the publish passes the parse call
-            ordered = g.dominates(parse[0], pub[0]) and not g.reaches(pub[0], fin[0], skip_kinds=("exc",)) and \
-                g.reaches(fin[0], pub[0], skip_kinds=("exc",))
-            # a path parse -> publish that skips finalize may exist only through the exception handler (parser error -> None)
-            skip = _reach_without(g, parse[0], pub[0], fin[0])
-            rep.check(ok_var and ordered and not skip, "ORDER-5", "%s._load publishes only the finalised document" % cname, "ok",
-                      "%s._load can store the document in the shared table before (or without) finalize() completed: a concurrent load() "
-                      "takes the fast path and returns an unresolved document" % cname, where(f, pub[0].ast),
-                      witness="deferred_load(mid) then load(top) while mid's loader is inside finalize(): top merges an unresolved mid")
+        publish_after_finalize(prog, rep, cls, cname, "ORDER-5")
         for m in cls.methods.values():
             if m.name in ("_load",):
                 continue
@@ -209,6 +185,36 @@ def run(prog, rep):
     rep.note("sibling difference: terminology.cache_load catches Exception around the fetch and returns None; templates.cache_load catches "
              "(ValueError, URLError), re-raises, and TemplateHandler._load turns that into None")
     rep.assume("threading.Thread.join returns after the target function returned; dict get/set of single keys are atomic in CPython")
+
+
+def publish_after_finalize(prog, rep, cls, cname, rule="ORDER-5"):
+    """the loaded document enters the shared table only after finalize() (shared with C19: a half resolved document in the
+    cache makes a second validation of the same object report something else)."""
+    # ------------------------------------------------------------- ORDER-5
+    rep.rule(rule, "_load: the store self[url] = <doc> is dominated by the call of XMLReader(...).from_file(...) and by "
+                        "<doc>.finalize(); the stored value is that document (or None after a parser error); no other method "
+                        "stores into the table; refresh may clear it")
+    f = cls.lookup_method("_load")
+    rep.saw_function(f)
+    g = build_cfg(f)
+    pub = _node_with(g, lambda n: n.kind == "stmt" and isinstance(n.ast, ast.Assign) and unparse(n.ast.targets[0]) == "%s[%s]" % (f.params[0], f.params[1]))
+    parse = _node_with(g, lambda n: n.kind == "stmt" and ".from_file(" in unparse(n.ast))
+    fin = _node_with(g, lambda n: n.kind == "stmt" and unparse(n.ast).endswith(".finalize()"))
+    rep.check(len(pub) == 1 and len(parse) == 1 and len(fin) == 1, rule, "%s._load: parse, finalize, publish" % cname, "ok",
+              "%s._load no longer has exactly one parse, one finalize and one publishing store" % cname, f.where)
+    if len(pub) == 1 and len(parse) == 1 and len(fin) == 1:
+        docvar = unparse(parse[0].ast.targets[0]) if isinstance(parse[0].ast, ast.Assign) else "?"
+        ok_var = unparse(fin[0].ast) == "%s.finalize()" % docvar and unparse(pub[0].ast.value) == docvar
+        # publish happens after finalize on every path where finalize ran: finalize is not reachable from the publish,
+        # and every path to the publish passes the parse call
+        ordered = g.dominates(parse[0], pub[0]) and not g.reaches(pub[0], fin[0], skip_kinds=("exc",)) and \
+            g.reaches(fin[0], pub[0], skip_kinds=("exc",))
+        # a path parse -> publish that skips finalize may exist only through the exception handler (parser error -> None)
+        skip = _reach_without(g, parse[0], pub[0], fin[0])
+        rep.check(ok_var and ordered and not skip, rule, "%s._load publishes only the finalised document" % cname, "ok",
+                  "%s._load can store the document in the shared table before (or without) finalize() completed: a concurrent load() "
+                  "takes the fast path and returns an unresolved document" % cname, where(f, pub[0].ast),
+                  witness="deferred_load(mid) then load(top) while mid's loader is inside finalize(): top merges an unresolved mid")
 
 
 def _reach_without(g, a, b, via):
